@@ -316,9 +316,26 @@ def append_ghost_arg(src, methods, ghost_arg):
     """R4 (call side): append ghost_arg to every call `.m(...)` / `m(...)` / `T::m(...)` with m in methods."""
     st = sig(lex(src))
     edits = []
+    def _open_of(ci):
+        depth = 0
+        k = ci
+        while k >= 0:
+            if st[k].kind == 'p' and st[k].text in CLOSE:
+                depth += 1
+            elif st[k].kind == 'p' and st[k].text in OPEN:
+                depth -= 1
+                if depth == 0:
+                    return k
+            k -= 1
+        return -1
     for i, t in enumerate(st):
         if not (t.kind == 'id' and t.text in methods):
             continue
+        # a method on the VALUE returned by `.state(..)` is a TaskState method (is_ready, is_running, ...), never a heap method
+        if i >= 3 and st[i - 1].text == '.' and st[i - 2].text == ')':
+            oi = _open_of(i - 2)
+            if oi > 0 and st[oi - 1].kind == 'id' and st[oi - 1].text == 'state':
+                continue
         po = i + 1
         # turbofish: name::<T>(...)
         if po + 2 < len(st) and st[po].text == ':' and st[po + 1].text == ':' and st[po + 2].text == '<':
